@@ -64,6 +64,7 @@ type SpecFn struct {
 	Body   *Expr
 	Pkg    *packages.Package
 	Rec    bool
+	Macro  bool // expanded at each use (body may read the heap)
 }
 
 type Lemma struct {
@@ -109,7 +110,7 @@ func newDB() *ContractDB {
 var subKeywords = map[string]bool{"arith": true, "requires": true, "assumes": true, "allocates": true, "ensures": true, "assigns": true, "pure": true, "inline": true,
 	"trusted": true, "loop": true, "invariant": true, "decreases": true, "unroll": true, "assert": true, "check": true, "replay": true,
 	"nosafety": true, "abstract": true, "using": true, "let": true, "opaque": true}
-var topKeywords = map[string]bool{"func": true, "spec": true, "lemma": true, "axiom": true, "ghost": true, "const": true, "global": true, "evalconst": true, "onalloc": true}
+var topKeywords = map[string]bool{"func": true, "spec": true, "macro": true, "lemma": true, "axiom": true, "ghost": true, "const": true, "global": true, "evalconst": true, "onalloc": true}
 
 // collect //@ lines of a file, joined into logical clauses.
 func contractLines(f *ast.File) []string {
@@ -290,8 +291,10 @@ func (db *ContractDB) loadFile(pkg *packages.Package, f *ast.File, fname string)
 			}
 			db.Funcs[cur.Key] = cur
 			curLoop, curLemma = nil, nil
-		case "spec":
+		case "spec", "macro":
 			// spec name(params) Ret [= body]
+			// macro name(params) Ret = body : expanded at every use in the user's state, so the body may
+			// read the heap (mem(s), p.f); a spec with a body is one global definition and may not
 			cur, curLoop, curLemma = nil, nil, nil
 			i := strings.Index(rest, "(")
 			j := matchParen(rest, i)
@@ -313,7 +316,7 @@ func (db *ContractDB) loadFile(pkg *packages.Package, f *ast.File, fname string)
 				db.errf("%s: %v", where, err)
 				continue
 			}
-			sf := &SpecFn{Name: name, Params: params, Ret: rt, Body: body, Pkg: pkg}
+			sf := &SpecFn{Name: name, Params: params, Ret: rt, Body: body, Pkg: pkg, Macro: kw == "macro"}
 			if body != nil && mentionsCall(body, name) {
 				sf.Rec = true
 			}
